@@ -389,7 +389,14 @@ func runScheduleFull(sc *scenario, prefix []int, expect []vsched.PointInfo, logE
 			h.Write(chains[id][:])
 			h.Write([]byte(kind))
 			if kind == "var" {
-				if p, ok := globals[name]; ok {
+				p, ok := globals[name]
+				if !ok {
+					// a field of a struct variable ("pkg.G.f"): hash the variable
+					if i := strings.LastIndex(name, "."); i > strings.Index(name, ".") {
+						p, ok = globals[name[:i]]
+					}
+				}
+				if ok {
 					g := vsched.HashGlobalsFull(map[string]any{name: p})
 					h.Write(g[:])
 				} else {
@@ -430,6 +437,9 @@ type seqRef struct {
 	outs   [][][]byte
 	counts map[string][2]int
 	calls  []int
+	// effective[i]: invocations of function i that did some work in the
+	// sequential cold execution
+	effective []int
 	// initOnly[i]: function i runs in a cold sequential execution but not at
 	// all when the same calls are repeated warm: one-time initialisation work
 	// (construction of lazily built package-level tables). Only for these is
@@ -443,6 +453,7 @@ type seqRef struct {
 // sequential reference: every thread's calls run one thread after the other
 // (the zero-deviation schedule), outputs additionally compared with the model.
 func sequentialRef(sc *scenario) *seqRef {
+	vsched.InitOnly = nil
 	r := runSchedule(sc, nil, nil, false)
 	seqDamagedShared = fingerprintShared() != sharedFingerprint
 	// Restore self-check: the zero-deviation schedule, run again after
@@ -467,7 +478,11 @@ func sequentialRef(sc *scenario) *seqRef {
 		}
 		initOnly[i] = n > 0 && wn == 0
 	}
-	return &seqRef{outs: r.outs, counts: r.exec.Counts, calls: r.exec.Calls, initOnly: initOnly, globals: r.globals}
+	// third cold run, now with the init-only set known: how many invocations
+	// of each init-only function did some work (see vsched.Enter)
+	vsched.InitOnly = initOnly
+	r3 := runSchedule(sc, nil, nil, false)
+	return &seqRef{outs: r.outs, counts: r.exec.Counts, calls: r.exec.Calls, effective: r3.exec.Effective, initOnly: initOnly, globals: r.globals}
 }
 
 func modelOuts(sc *scenario) map[string][]byte {
@@ -542,9 +557,13 @@ func checkExecution(sc *scenario, seq *seqRef, r *result) string {
 		}
 		return 0
 	}
+	// Counted are the invocations that did some work (entered a function that
+	// is not itself init-only, or wrote a package-level variable): the losing
+	// side of a double-checked initialisation - lock, look, leave - runs a
+	// schedule-dependent number of times without constructing anything.
 	for i := 0; i < n; i++ {
-		if i < len(seq.initOnly) && seq.initOnly[i] && at(e.Calls, i) != at(seq.calls, i) {
-			return fmt.Sprintf("one-time initialisation function %s (never runs once the process is warm) ran %d times, %d times in the sequential cold execution of the same calls: lazily built state was constructed more than once (or partially) under this schedule", funcName(i), at(e.Calls, i), at(seq.calls, i))
+		if i < len(seq.initOnly) && seq.initOnly[i] && at(e.Effective, i) != at(seq.effective, i) {
+			return fmt.Sprintf("one-time initialisation function %s (never runs once the process is warm) did its work %d times (%d invocations), %d times in the sequential cold execution of the same calls: lazily built state was constructed more than once (or partially) under this schedule", funcName(i), at(e.Effective, i), at(e.Calls, i), at(seq.effective, i))
 		}
 	}
 	// The final package state is NOT required to equal the sequential one: a
